@@ -162,7 +162,69 @@ pub fn run_c17(tier: Tier) -> i32 {
             rec.sample(json!({"kinds": s.iter().map(|k| format!("{k:?}")).collect::<Vec<_>>(), "phrase": got}));
         }
     }
-    rec.add_counts(sets.len() as u64, seqs.len() as u64, seqs.len() as u64);
+    // call sequences: the phrase is a function of the list alone, whatever was described before on
+    // the same thread — every ordered triple (thorough: quadruple) of lists from a small alphabet,
+    // each sequence on a fresh thread, every call compared with the specification
+    let alphabet: Vec<Vec<Kind>> = {
+        use Kind::*;
+        vec![
+            vec![],
+            vec![Null],
+            vec![Integer],
+            vec![NegativeInteger, Integer],
+            vec![Float, Integer, NegativeInteger],
+            vec![String, Null],
+            vec![Null, Null],
+            vec![Boolean, Sequence, Map],
+            Kind::ALL.to_vec(),
+            vec![Float],
+        ]
+    };
+    let depth = if tier == Tier::Quick { 3 } else { 4 };
+    let mut n_hist = 0u64;
+    let mut idx = vec![0usize; depth];
+    'outer: loop {
+        let lists: Vec<&Vec<Kind>> = idx.iter().map(|i| &alphabet[*i]).collect();
+        let bad = std::thread::scope(|sc| {
+            sc.spawn(|| {
+                for (n, l) in lists.iter().enumerate() {
+                    let input: Vec<deserr::ValueKind> = l.iter().map(|k| k.to_deserr()).collect();
+                    let got = deserr::errors::json::value_kinds_description_json(&input);
+                    let want = kinds_phrase_spec(&l.iter().copied().collect());
+                    if got != want {
+                        return Some((n, got, want));
+                    }
+                }
+                None
+            })
+            .join()
+            .unwrap()
+        });
+        n_hist += 1;
+        if let Some((n, got, want)) = bad {
+            rec.violation(Violation {
+                property: "C17".into(),
+                subject: "call sequence".into(),
+                message: format!("call {} of the sequence {lists:?} (fresh thread) describes {:?} as {got:?}, expected {want:?}", n + 1, lists[n]),
+                replay: json!({"kind": "c17-seq", "lists": lists.iter().map(|l| l.iter().map(|k| format!("{k:?}")).collect::<Vec<_>>()).collect::<Vec<_>>()}),
+            });
+        }
+        // next index vector
+        let mut p = depth;
+        loop {
+            if p == 0 {
+                break 'outer;
+            }
+            p -= 1;
+            idx[p] += 1;
+            if idx[p] < alphabet.len() {
+                break;
+            }
+            idx[p] = 0;
+        }
+    }
+    rec.set_extra("call_sequences_on_fresh_threads", json!({"alphabet": alphabet.len(), "length": depth, "sequences": n_hist}));
+    rec.add_counts(sets.len() as u64, seqs.len() as u64 + n_hist, seqs.len() as u64 + n_hist * depth as u64);
     let mut h = HashSet::new();
     for p in &phrases {
         h.insert(hash64(p));
@@ -173,7 +235,7 @@ pub fn run_c17(tier: Tier) -> i32 {
     rec.set_extra("long_lists_(9_to_67_entries_and_repeated_subsets)", json!(n_long));
     rec.finish(
         "model_checking",
-        "complete enumeration: every sequence of value kinds of length 0..5 (quick) / 0..7 (thorough) with repetitions (8^0+…+8^n) every permutation of every one of the 256 subsets, and long lists (9–67 entries: every pair of kinds repeated 4–33 times followed by every kind / pair of kinds; every subset forwards, backwards and cyclically with 1–4 repetitions); states = distinct kind sets, transitions = sequences evaluated; each evaluated on the real value_kinds_description_json and compared with an independent specification that is a function of the set only (so equality implies order- and multiplicity-independence). distinct = distinct phrases produced.",
+        "complete enumeration: every sequence of value kinds of length 0..5 (quick) / 0..7 (thorough) with repetitions (8^0+…+8^n) every permutation of every one of the 256 subsets, and long lists (9–67 entries: every pair of kinds repeated 4–33 times followed by every kind / pair of kinds; every subset forwards, backwards and cyclically with 1–4 repetitions); states = distinct kind sets, transitions = sequences evaluated; each evaluated on the real value_kinds_description_json and compared with an independent specification that is a function of the set only (so equality implies order- and multiplicity-independence). Call sequences: every ordered triple (thorough: quadruple) over ten representative lists (empty, single, collapsing, duplicated, all kinds), each sequence on a fresh thread, every call compared with the specification (the phrase does not depend on earlier calls). distinct = distinct phrases produced.",
         &["the specification function kinds_phrase_spec (mc-core/src/pure.rs) states the documented phrase rules"],
     )
 }
@@ -473,6 +535,81 @@ pub fn run_c18(tier: Tier) -> i32 {
         }
     }
     states += list_cases;
+    // (e) call sequences: the suggestion is a function of (received, list) alone, whatever was asked
+    // before on the same thread. Alphabet: 5 received strings × every ordering of every subset of
+    // three names two of which tie; every ordered pair (thorough: triple) of calls, each sequence on
+    // a fresh thread, every call compared with the specification.
+    {
+        let names = ["offset", "onset", "limit"];
+        let mut lists: Vec<Vec<&str>> = vec![vec![]];
+        for a in 0..3 {
+            lists.push(vec![names[a]]);
+            for b in 0..3 {
+                if b != a {
+                    lists.push(vec![names[a], names[b]]);
+                    for c in 0..3 {
+                        if c != a && c != b {
+                            lists.push(vec![names[a], names[b], names[c]]);
+                        }
+                    }
+                }
+            }
+        }
+        let received = ["ofset", "limt", "onsett", "zzzzzz", "offset"];
+        let calls: Vec<(&str, &Vec<&str>)> = received.iter().flat_map(|r| lists.iter().map(move |l| (*r, l))).collect();
+        let depth = if tier == Tier::Quick { 2 } else { 3 };
+        let total = calls.len().pow(depth as u32);
+        let next = AtomicUsize::new(0);
+        let nseq = AtomicUsize::new(0);
+        std::thread::scope(|sc| {
+            for _ in 0..threads() {
+                sc.spawn(|| loop {
+                    // blocks of sequences sharing their first call
+                    let first = next.fetch_add(1, Ordering::SeqCst);
+                    if first >= calls.len() {
+                        break;
+                    }
+                    let rest = total / calls.len();
+                    for r in 0..rest {
+                        let mut ix = vec![first];
+                        let mut x = r;
+                        for _ in 1..depth {
+                            ix.push(x % calls.len());
+                            x /= calls.len();
+                        }
+                        let seq: Vec<(&str, &Vec<&str>)> = ix.iter().map(|i| calls[*i]).collect();
+                        let bad = std::thread::scope(|s2| {
+                            s2.spawn(|| {
+                                for (n, (r, l)) in seq.iter().enumerate() {
+                                    let got = deserr::errors::helpers::did_you_mean(r, l);
+                                    let want = did_you_mean_spec(r, l);
+                                    if got != want {
+                                        return Some((n, got, want));
+                                    }
+                                }
+                                None
+                            })
+                            .join()
+                            .unwrap_or(Some((0, "<panicked>".into(), String::new())))
+                        });
+                        nseq.fetch_add(1, Ordering::Relaxed);
+                        if let Some((n, got, want)) = bad {
+                            rec.violation(Violation {
+                                property: "C18".into(),
+                                subject: "call sequence".into(),
+                                message: format!("call {} of the sequence {seq:?} (fresh thread) answers {got:?}, expected {want:?}", n + 1),
+                                replay: json!({"kind": "c18-seq", "calls": seq.iter().map(|(r, l)| json!({"received": r, "accepted": l})).collect::<Vec<_>>()}),
+                            });
+                        }
+                    }
+                });
+            }
+        });
+        let n = nseq.load(Ordering::Relaxed) as u64;
+        evals.fetch_add((n as usize) * depth, Ordering::Relaxed);
+        states += n;
+        rec.set_extra("call_sequences_on_fresh_threads", json!({"calls_in_alphabet": calls.len(), "length": depth, "sequences": n}));
+    }
     // self-check of the reference distance on textbook values (harness error if wrong)
     assert_eq!(damerau_levenshtein("ca", "abc"), 2);
     assert_eq!(damerau_levenshtein("abcd", "abdc"), 1);
@@ -486,7 +623,7 @@ pub fn run_c18(tier: Tier) -> i32 {
     rec.set_extra("alphabet_pairs_length", json!(l1));
     rec.finish(
         "model_checking",
-        "complete enumeration of four finite spaces: (a) every (received, single candidate) pair over {a,b,c}^≤6 (quick) / ^≤8 (thorough); (a') every pair over {a,b,c}^≤4 behind a common prefix of 5 / 10 / 15 / 22 bytes, so that every distance 0..4 is met in every budget class 2..5 (transposition-with-insertion shapes distinguish true Damerau–Levenshtein from optimal string alignment only from budget 2 on); (b) every pair over {a,é}^≤7 (byte length ≠ char length, crossing the 3/4, 7/8 and 12/13 byte thresholds); (c) for byte lengths 3,4,7,8,12,13,17,18,24,25,30,40 (ascii and multi-byte bases) candidates at every distance 0..7 built by substitution / deletion / insertion / transposition, singly and in all ordered pairs; (b') every pair over {a, 日, 😀}^≤4 bare and behind 5 / 10 ASCII bytes; (c') received strings of 62…258 and 1000 bytes built from 2-, 3- and 4-byte characters behind 0–3 ASCII bytes, so that a character straddles every byte offset; (d) every candidate list of length 0..3 over a 12-string pool (ties, exact matches, empty string, duplicates) for 60 received strings. Oracle: independent unrestricted Damerau–Levenshtein over chars, budget by byte length, earliest minimal candidate; output empty or exactly `did you mean `X`? `.",
+        "complete enumeration of four finite spaces: (a) every (received, single candidate) pair over {a,b,c}^≤6 (quick) / ^≤8 (thorough); (a') every pair over {a,b,c}^≤4 behind a common prefix of 5 / 10 / 15 / 22 bytes, so that every distance 0..4 is met in every budget class 2..5 (transposition-with-insertion shapes distinguish true Damerau–Levenshtein from optimal string alignment only from budget 2 on); (b) every pair over {a,é}^≤7 (byte length ≠ char length, crossing the 3/4, 7/8 and 12/13 byte thresholds); (c) for byte lengths 3,4,7,8,12,13,17,18,24,25,30,40 (ascii and multi-byte bases) candidates at every distance 0..7 built by substitution / deletion / insertion / transposition, singly and in all ordered pairs; (b') every pair over {a, 日, 😀}^≤4 bare and behind 5 / 10 ASCII bytes; (c') received strings of 62…258 and 1000 bytes built from 2-, 3- and 4-byte characters behind 0–3 ASCII bytes, so that a character straddles every byte offset; (d) every candidate list of length 0..3 over a 12-string pool (ties, exact matches, empty string, duplicates) for 60 received strings; (e) call sequences: every ordered pair (thorough: triple) of calls over 5 received strings × all 16 orderings of the subsets of three names two of which tie, each sequence on a fresh thread (the answer does not depend on earlier calls). Oracle: independent unrestricted Damerau–Levenshtein over chars, budget by byte length, earliest minimal candidate; output empty or exactly `did you mean `X`? `.",
         &["the reference distance is the textbook unrestricted Damerau–Levenshtein (self-checked on known values at start-up)"],
     )
 }
@@ -583,6 +720,16 @@ pub fn run_c19(tier: Tier) -> i32 {
     // keys that look like path syntax themselves (`tags[]`, `[]`, `.`), mixed with indices
     let odd2 = vec![Step::Key("tags[]".into()), Step::Key("[]".into()), Step::Key(".".into()), Step::Index(1)];
     c19_rec(deserr::ValuePointerRef::Origin, &mut vec![], 4, &odd2, &mut check);
+    // key *texts*: whatever a key spells (numbers, booleans, path syntax, blanks, case variants,
+    // non-ASCII, control characters), it is a key — every path of ≤ 3 steps over these and one index
+    let texts = [
+        "name", "Name", "0", "1", "3", "007", "+1", "-1", "-0", "1.5", "1e3", "18446744073709551616", "true", "false", "null", "", " ",
+        "a b", "_", "__proto__", "tags[]", "[]", "[0]", "a[0]", ".", "..", "a.b", "/", "~0", "#", "$", "*", "é", "e\u{301}", "日本", "😀",
+        "\u{0}", "\t", "\n", "\"", "'", "\\", "%41",
+    ];
+    let mut odd3: Vec<Step> = texts.iter().map(|t| Step::Key(t.to_string())).collect();
+    odd3.push(Step::Index(0));
+    c19_rec(deserr::ValuePointerRef::Origin, &mut vec![], 3, &odd3, &mut check);
     let exhaustive_n = n.get();
     // longer paths: the lexicographically first 2000 paths of each length 7..=12, with distinct keys
     let long_alpha = vec![Step::Key("k1".into()), Step::Index(7), Step::Key("k2".into()), Step::Index(0)];
@@ -622,7 +769,7 @@ pub fn run_c19(tier: Tier) -> i32 {
     rec.sample(json!({"path": ".a[0].b", "to_owned": format!("{:?}", deserr::ValuePointerRef::Origin.push_key("a").push_index(0).push_key("b").to_owned().path)}));
     rec.finish(
         "model_checking",
-        "complete enumeration of every path of ≤ 6 (quick) / ≤ 11 (thorough) steps over {key a, key b, index 0, index 1}, built as real ValuePointerRef chains by recursion, every path of ≤ 4 steps over {empty key, key `a.b[0]`, key `é`, index usize::MAX} and over {key `tags[]`, key `[]`, key `.`, index 1}, plus the first 2000 paths of each of the next six lengths over a second alphabet and four paths of each length 100, 127–130, 255–257, 1000, 5000. Oracle: to_owned().path lists exactly the pushed steps in order; is_origin ⇔ no step; first_field / last_field = first / last key step or None.",
+        "complete enumeration of every path of ≤ 6 (quick) / ≤ 11 (thorough) steps over {key a, key b, index 0, index 1}, built as real ValuePointerRef chains by recursion, every path of ≤ 4 steps over {empty key, key `a.b[0]`, key `é`, index usize::MAX} and over {key `tags[]`, key `[]`, key `.`, index 1}, every path of ≤ 3 steps over 43 key texts (number-, boolean- and null-like, path syntax, blanks, case variants, non-ASCII, control characters) and one index, plus the first 2000 paths of each of the next six lengths over a second alphabet and four paths of each length 100, 127–130, 255–257, 1000, 5000. Oracle: to_owned().path lists exactly the pushed steps in order; is_origin ⇔ no step; first_field / last_field = first / last key step or None.",
         &["ValuePointerComponent is not exported by deserr, so the owned path is compared through its Debug rendering"],
     )
 }
@@ -811,7 +958,7 @@ pub fn run_c13(tier: Tier) -> i32 {
     // all ordered pairs of names as siblings and as parent / child
     let awkward = [
         "~", "~0", "~1", "~01", "~10", "~~", "/", "a/b", "a~0b", "a~b", "a~1b", "//", ".", "a.b", "..", "0", "1", "-1", "-",
-        "[0]", "a[0]", "[]", "#", "$", "$ref", "*", "\\\\", "\\\"", " ", "\\u0000", "é", "日本", "__proto__",
+        "[0]", "a[0]", "[]", "#", "$", "$ref", "*", "a", "b", "id", "inner", "\\\\", "\\\"", " ", "\\u0000", "é", "日本", "__proto__",
     ];
     let vals = ["[1]", "{\"x\":[2,\"s\"]}", "[[],{}]", "3"];
     let mut extra: Vec<String> = vec![];
@@ -831,6 +978,12 @@ pub fn run_c13(tier: Tier) -> i32 {
                 extra.push(format!("{{\"{k1}\":{a},\"{k2}\":{b}}}"));
                 extra.push(format!("{{\"{k1}\":{{\"{k2}\":{a}}}}}"));
             }
+            // the same name at two levels, next to / below a sibling (an enclosing member and a
+            // nested member that share their name must stay where they are)
+            extra.push(format!("{{\"{k1}\":1,\"{k2}\":{{\"{k1}\":2}}}}"));
+            extra.push(format!("{{\"{k1}\":1,\"{k2}\":{{\"{k1}\":7,\"{k2}\":{{}}}}}}"));
+            extra.push(format!("{{\"{k1}\":[{{\"{k1}\":1}}],\"{k2}\":{{\"{k1}\":{{\"{k1}\":2}},\"{k2}\":[]}}}}"));
+            extra.push(format!("[{{\"{k1}\":1}},{{\"{k1}\":1,\"{k2}\":{{\"{k2}\":{{\"{k1}\":null}}}}}}]"));
         }
     }
     rec.set_extra("documents_with_awkward_member_names", json!(extra.len()));
@@ -996,7 +1149,7 @@ pub fn run_c13(tier: Tier) -> i32 {
     }
     rec.finish(
         "model_checking",
-        "complete enumeration of every JSON document with ≤ 3 (quick) / ≤ 5 (thorough) nodes over keys {\"\", a, b} and 26 leaf literals given as *text* (0, -0, -0.0, u64::MAX, u64::MAX+1, i64::MIN, i64::MIN-1, i64::MAX, i64::MAX+1, 2^53-1, 2^53, 2^53+1, 1.0, 1e2, subnormals, f64::MAX, strings, booleans, null), parsed by serde_json. Oracle per document (self-relative): deserialize::<Value,_,_>(v) == Ok(v) with no report, also through the second value source; Value::from(v.into_value()) == v (structurally and as text, so -0.0 vs 0 is seen); kind() == into_value().kind() for v and every sub-value; numbers classified by serde_json's own text form of the number (no . / e ⇒ integer, sign ⇒ negative) and carried exactly. distinct = distinct document texts.",
+        "complete enumeration of every JSON document with ≤ 3 (quick) / ≤ 5 (thorough) nodes over keys {\"\", a, b} and 26 leaf literals given as *text* (0, -0, -0.0, u64::MAX, u64::MAX+1, i64::MIN, i64::MIN-1, i64::MAX, i64::MAX+1, 2^53-1, 2^53, 2^53+1, 1.0, 1e2, subnormals, f64::MAX, strings, booleans, null), parsed by serde_json; plus every ordered pair of 37 member names (JSON-pointer / path / template syntax, quotes, NUL, non-ASCII, and plain ones) as siblings holding containers, as parent / child, and as the *same name at two levels* next to and below a sibling; plus long arrays / wide objects / long strings and deep nesting. Oracle per document (self-relative): deserialize::<Value,_,_>(v) == Ok(v) with no report, also through the second value source; Value::from(v.into_value()) == v (structurally and as text, so -0.0 vs 0 is seen); kind() == into_value().kind() for v and every sub-value; numbers classified by serde_json's own text form of the number (no . / e ⇒ integer, sign ⇒ negative) and carried exactly. distinct = distinct document texts.",
         &["classification reference = the text serde_json itself prints for the number it holds"],
     )
 }
